@@ -226,9 +226,10 @@ Definition start_operation (pr : proto) (st : state) (i : id) (p : payload) : st
                (s_ops st ++ [mkOp (s_next st) i k false]) (s_next st + 1), [])
   end.
 
-(* ExecutorEngine.StopSubscription: Cancel(id) whether or not it exists, then always "complete" *)
+(* ExecutorEngine.StopSubscription: "complete" only if Cancel(id) found the id registered
+   (since fix 1; the code as found is in ModelV0.v) *)
 Definition stop_subscription (st : state) (i : id) : state * list output :=
-  (cancel_id i st, emit st [OMsg MComplete i]).
+  if active st i then (cancel_id i st, emit st [OMsg MComplete i]) else (st, []).
 
 (* the executor of goroutine t writes and flushes while inside Execute *)
 Definition exec_flush (pr : proto) (st : state) (t : N) : state * list output :=
@@ -236,7 +237,8 @@ Definition exec_flush (pr : proto) (st : state) (t : N) : state * list output :=
   | None => (st, [])
   | Some o =>
     match o_kind o with
-    | KSub => (st, emit st [OMsg (data_msg pr) (o_id o)])  (* flush callback of executeSubscription *)
+    | KSub =>                                              (* flush callback of executeSubscription: *)
+      (st, if o_cancelled o then [] else emit st [OMsg (data_msg pr) (o_id o)])  (* silent once ctx.Err() != nil (fix 2) *)
     | KQuery => (st, [])                                   (* handleNonSubscriptionOperation sets no callback *)
     end
   end.
@@ -251,11 +253,15 @@ Definition exec_return (pr : proto) (st : state) (t : N) (r : ret) (again : bool
     | KSub =>
       (* executeSubscription, then the select of startSubscription: a cancelled context ends the
          goroutine, otherwise it calls Execute again after the update interval *)
-      let outs := match r with ROk => [] | RData => [OMsg (data_msg pr) i] | RErr => [OMsg MError i] end in
+      let outs := if o_cancelled o then []       (* ctx.Err() != nil after Execute: return (fix 2) *)
+                  else match r with ROk => [] | RData => [OMsg (data_msg pr) i] | RErr => [OMsg MError i] end in
       (if o_cancelled o && negb again then set_ops st (remove_op t (s_ops st)) else st, emit st outs)
     | KQuery =>
-      (* handleNonSubscriptionOperation: error, or result + complete; then the deferred
-         subCancellations.Cancel(id) -- by id, whoever holds it now *)
+      (* handleNonSubscriptionOperation: with a cancelled context nothing is sent and the deferred
+         Cancel(id) is skipped (fix 2); otherwise error, or result + complete, then the deferred
+         subCancellations.Cancel(id) *)
+      if o_cancelled o then (set_ops st (remove_op t (s_ops st)), [])
+      else
       let outs := match r with
                   | RErr => [OMsg MError i]
                   | _ => [OMsg (data_msg pr) i; OMsg MComplete i]
@@ -293,7 +299,7 @@ Definition handle_tws (st : state) (m : input) : state * list output :=
          | PNoPayload => (st, [])                            (* DeserializeSubscribePayload error *)
          | _ => start_operation TWS st i p
          end
-  | CComplete i => stop_subscription st i                    (* no init check *)
+  | CComplete i => stop_subscription st i                    (* no init check (nothing can be active then) *)
   | CStart _ _ | CStop _ | CTerminate | CUnknown => do_close st code_invalid_type
   | _ => (st, [])
   end.
